@@ -534,6 +534,47 @@ def _joined_iterator(h, par, it_call):
     return looped, ("" if looped else "the first arm type is taken but %s" % why)
 
 
+def rule_declaration_lookup(ctx):
+    """one lookup of a constructor / destructor in its declaration, for terms and patterns alike"""
+    rule = "declaration-lookup"
+    facts = ctx.facts
+    ctx.rule(rule, "the payload type of a constructor and the result type of a destructor are looked up in the declaration only through "
+                   "Data::get / CoData::get (first declaration of the name): no name-keyed map of declaration arms (HashMap / BTreeMap "
+                   "from CtorName / DtorName to TypeId, where the LAST declaration wins) is built anywhere in zydeco-statics, and the "
+                   "constructor term, the constructor pattern and definitional equality all reach Data::get. With a repeated name the "
+                   "term and the pattern would otherwise be checked at different payload types")
+    n = 0
+    for fn, bd in sorted(facts.bodies().items()):
+        if "zydeco_statics" not in fn or "::tests::" in fn:
+            continue
+        h = facts.hir(fn)
+        if not h:
+            continue
+        for x in H.walk(h["body"]):
+            t = x.get("ty") or ""
+            if H.kind(x) in ("MethodCall", "Call"):
+                n += 1
+                if re.search(r"(HashMap|BTreeMap|OrdMap)<zydeco_syntax::(CtorName|DtorName), zydeco_statics::syntax::TypeId\b", t):
+                    ctx.violation(rule, "%s:name-keyed-arms" % M.short_fn(fn.split("::{closure")[0]),
+                                  "%s builds a %s of declaration arms: on a repeated constructor / destructor name the last declaration "
+                                  "wins, while Data::get / CoData::get (used by the other judgments) take the first; a value built at "
+                                  "one payload type is then matched at another" % (fn, t.split("<")[0].split("::")[-1]),
+                                  [bd["loc"][0], x.get("ln")])
+    ct = facts.calls_to()
+    for which, need in (("Data", ("syntax::TermId> as zydeco_statics::check::Tyck<'a>>::tyck_inner_k",
+                                  "syntax::PatId> as zydeco_statics::check::Tyck<'a>>::tyck_inner_k",
+                                  "zydeco_statics::check::lub::Debruijn::lub_inner")),
+                        ("CoData", ("syntax::TermId> as zydeco_statics::check::Tyck<'a>>::tyck_inner_k",
+                                    "zydeco_statics::check::lub::Debruijn::lub_inner"))):
+        callee = "zydeco_statics::syntax::impls_structs::<impl zydeco_statics::syntax::%s>::get" % which
+        callers = set(c["from"].split("::{closure")[0] for c in ct.get(callee, []))
+        for w in need:
+            ctx.check(any(c.endswith(w) for c in callers), rule, "%s::get:%s" % (which, w.split("::")[-2 if w.endswith("_k") else -1][:40] + ("/" + w.split(" as ")[0].split("::")[-1] if " as " in w else "")),
+                      "%s no longer looks names up through %s::get (callers: %s)" % (w, which, sorted(callers)), None,
+                      detail={"lookup": which + "::get", "caller": w})
+    ctx.floor(rule, "call expressions inspected", n, 5000)
+
+
 def rule_judgments(ctx):
     """every sub-term / sub-pattern of every former is handed to a checking judgment (R-TRAV on the checker itself)"""
     from .. import trav
@@ -617,6 +658,7 @@ def run(ctx):
     rule_judgments(ctx)
     rule_expected_type(ctx)
     rule_branch_join(ctx)
+    rule_declaration_lookup(ctx)
     from . import c04
     from .. import golden
     ctx.rule("coverage-validator", "the validator that makes `no matching arm` and `pattern match failed` unreachable performs its audited "
